@@ -445,3 +445,34 @@ func isLangNamed(T types.Type, name string) bool {
 func isErrorType(T types.Type) bool {
 	return types.Identical(T, types.Universe.Lookup("error").Type())
 }
+
+// LoadDir loads a stand-alone package directory (the positive examples under checker/testdata).
+func LoadDir(dir string) (*Program, error) {
+	env := append(os.Environ(), "GOFLAGS=-mod=mod", "GOPROXY=off", "GOSUMDB=off", "GOTOOLCHAIN=local", "GOWORK=off")
+	cfg := &packages.Config{Mode: packages.LoadAllSyntax, Dir: dir, Env: env}
+	initial, err := packages.Load(cfg, "./...")
+	if err != nil {
+		return nil, err
+	}
+	for _, pkg := range initial {
+		if len(pkg.Errors) > 0 {
+			return nil, fmt.Errorf("%s: %v", pkg.PkgPath, pkg.Errors[0])
+		}
+	}
+	prog, spkgs := ssautil.Packages(initial, ssa.InstantiateGenerics)
+	prog.Build()
+	p := &Program{RepoDir: dir, SSA: prog, SSAPkgs: map[string]*ssa.Package{}, Stats: map[string]int{}, litFunc: map[*ast.FuncLit]*ssa.Function{}, declFunc: map[*types.Func]*ssa.Function{}}
+	if len(initial) > 0 {
+		p.Fset = initial[0].Fset
+	}
+	for i, pkg := range initial {
+		p.SSAPkgs[pkg.ID] = spkgs[i]
+		for _, m := range spkgs[i].Members {
+			if f, ok := m.(*ssa.Function); ok && f.Blocks != nil {
+				p.Funcs = append(p.Funcs, f)
+				p.Funcs = append(p.Funcs, f.AnonFuncs...)
+			}
+		}
+	}
+	return p, nil
+}
